@@ -10,6 +10,14 @@ COMMON_NOTE = ('Trusted base: z3 4.x/5.1 (python3-vt), the symx forking engine, 
                'reals), sizes beyond the stated bounds, GPU, complex dtypes. ')
 
 CHECKS = {
+ 'C02': dict(
+    text='sum_products is executed on recursive grammar shapes with all weights symbolic; every stopping test forks the path. The least-fixed-point clause is decided without computing limits by the Knaster-Tarski '
+         'characterisation against an independently built equation map G: r = G(r) and, for a fresh universally quantified y, G(y) <= y implies r <= y. Exact for Bool, Viterbi (tol=0, non-positive weights) and the linear solver; '
+         'for Real/Log iterative methods every path returning without a warning lies below every pre-fixed point, met its stopping criterion (observed) and (fixed-point) is stationary within tol. Budget N+1 in idempotent semirings must not be '
+         'exhausted (unwinding assertion). linear on a non-linear grammar raises ValueError.',
+    note='Bounds: 9 recursive shapes (scalar linear/quadratic, self-loops, two-cycle, HMM-shaped arity-1 over a size-2 domain, two SCCs, recursive start, non-linear mutual recursion), <=4 unknown cells, <=8 weights; '
+         'kmax in {0,1,N+1} (Bool/Viterbi), {0,1,2} (Real iterative, smaller for larger shapes); tol 1e-5. Outside: the limit statement "error vanishes as tol -> 0"; Viterbi with positive cycles or +inf; newton on non-linear SCCs uses the linalg.solve contract stub.',
+    technique='path-forking symbolic execution + Knaster-Tarski SMT queries (z3)', design='5/C02'),
  'C09': dict(
     text='Semiring.solve, PatternedTensor.solve, multi_solve (both transpose flags) and multi_mv run on the z3-valued tensor model; the returned x is decided to be the least solution by two SMT queries per '
          'right-hand side over the independently denoted dense system: x = A x + b, and for a fresh universally quantified y: A y + b <= y implies x <= y (Knaster-Tarski), which also settles divergence to the '
